@@ -286,11 +286,17 @@ def rollup_case(chk, rng):
         except SystemExit as e:
             chk.reject("rollup-exit"); return
         except Exception as e:
+            if any(len(P.read_result(f)) == 0 for f in src.glob("*.psms")):
+                chk.reject("rollup-input-file-without-rows")   # column types of an empty file cannot be inferred
+                return
             chk.spec_violation("rollup-exception:" + type(e).__name__, dict(case=case, error=str(e)[:300], clause="brew_rollup raised"))
             return
         # merged input rows = all rows of the psm result files
         allrows, meta = [], {}
         pep_ids, mod_ids = {}, {}
+        if any(len(P.read_result(src / f"p{k}.{w}.psms")) == 0 for k in range(len(tabs2)) for w in ("targets", "decoys")):
+            chk.reject("rollup-input-file-without-rows")   # column types of an empty file cannot be inferred
+            return
         for k in range(len(tabs2)):
             for which in ("targets", "decoys"):
                 f = P.read_result(src / f"p{k}.{which}.psms")
@@ -302,7 +308,8 @@ def rollup_case(chk, rng):
                     allrows.append([i, i, keys, which == "targets", int(rec["score"])])
                     meta[rec["PSMId"]] = i
         merged = sorted(allrows, key=lambda r: -r[4])
-        lv_names = ["peptide"] + (["modified_peptide"] if case["levels"] else [])
+        # (with do_rollup=False the PSM files carry no extra level column, so only the peptide level exists)
+        lv_names = ["peptide"] + (["modified_peptide"] if mod_ids else [])
         resp = common.driver_batch([req("rolluptool", len(lv_names), merged)] +
                                    [req("levelspec", l, merged, []) for l in range(0)])
         model = [[int(x) for x in lv] for lv in dec(resp[0])]
